@@ -99,6 +99,16 @@ def _one_tag_text(t):
     return True
 
 
+def _word(t):
+    """t is a non-empty run of ASCII letters/digits (one tag; used where the shape of the text is not the subject)"""
+    if len(t) == 0:
+        return False
+    for c in t:
+        if not ("a" <= c <= "z" or "A" <= c <= "Z" or "0" <= c <= "9"):
+            return False
+    return True
+
+
 def subtag_messages(t: str, i: int, j: int) -> bool:
     """
     pre: 1 <= len(t) <= R.N(2)
@@ -168,7 +178,7 @@ def whole_tag_offsets(s: str) -> bool:
 
 def combined_offsets(s1: str, s2: str) -> bool:
     """
-    pre: len(s1) <= R.N(2) and len(s2) <= R.N(2)
+    pre: len(s1) <= R.N(2) and len(s2) <= R.M(1)
     pre: R.env_int("VP_L1") is None or len(s1) == R.env_int("VP_L1")
     pre: R.env_int("VP_L2") is None or len(s2) == R.env_int("VP_L2")
     post: _
@@ -235,7 +245,7 @@ def decorate_once(t: str, i: int, j: int, kind: int, sev: int, warn: bool, passe
                   row: int) -> bool:
     """
     pre: 1 <= len(t) <= R.N(2)
-    pre: _one_tag_text(t)
+    pre: _word(t)
     pre: 0 <= i <= j <= len(t)
     pre: 0 <= kind <= 3 and sev in (1, 10) and 1 <= passes <= 2 and 0 <= route <= 2
     pre: R.env_int("VP_KIND") is None or kind == R.env_int("VP_KIND")
@@ -359,7 +369,7 @@ def _kf_validate_twice(b0, b1, warn, ctx):
 def validate_decorates_once(t: str, b0: int, b1: int, f0: int, warn: bool, ctx: bool) -> bool:
     """
     pre: 1 <= len(t) <= R.N(1)
-    pre: _one_tag_text(t)
+    pre: _word(t)
     pre: 0 <= b0 <= 4 and 0 <= b1 <= 4 and 0 <= f0 <= 4
     pre: R.env_int("VP_B0") is None or b0 == R.env_int("VP_B0")
     pre: not _known("C12-suffix-repeated", _kf_validate_twice(b0, b1, warn, ctx))
@@ -442,18 +452,47 @@ def _short(*xs):
     return True
 
 
+_REAL_MASKS = (0, 1, 3, 7, 9)    # string validation; file; file+column; file+column+key (sidecar); file+row (table)
+
+
+def _masks(n, g0, g1, g2):
+    """presence patterns (bit 1 file, 2 sidecar column, 4 sidecar key, 8 row) allowed in this tier/cell.
+    VP_MASKS=1: every pattern of a pair, otherwise the five patterns the validators produce; three issues: VP_KEY
+    (0 none, 1 file, 2 column, 4 key) names the one name all three carry, the row is optional for each.
+    VP_G0 pins g0 (the cell)."""
+    q = R.env_int("VP_G0")
+    if q is not None and n >= 1 and g0 != q:
+        return False
+    if n == 3:
+        k = R.env_int("VP_KEY", 0)
+        for g in (g0, g1, g2):
+            if g != k and g != k + 8:
+                return False
+    elif not R.env_int("VP_MASKS"):
+        for g in (g0, g1)[:n]:
+            if g not in _REAL_MASKS:
+                return False
+    return True
+
+
 def sort_stable(n: int, f0: str, c0: str, k0: str, r0: int, g0: int, f1: str, c1: str, k1: str, r1: int, g1: int,
                 f2: str, c2: str, k2: str, r2: int, g2: int) -> bool:
     """
     pre: 0 <= n <= R.N(3) and n <= 3
     pre: R.env_int("VP_LEN") is None or n == R.env_int("VP_LEN")
     pre: 0 <= g0 <= 15 and 0 <= g1 <= 15 and 0 <= g2 <= 15
-    pre: R.env_int("VP_G0") is None or g0 == R.env_int("VP_G0")
+    pre: _masks(n, g0, g1, g2)
     pre: _short(f0, c0, k0, f1, c1, k1, f2, c2, k2)
     pre: r0 >= 0 and r1 >= 0 and r2 >= 0
     post: _
     """
-    issues = [_issue(0, f0, c0, k0, r0, g0), _issue(1, f1, c1, k1, r1, g1), _issue(2, f2, c2, k2, r2, g2)][:n]
+    issues = []
+    if n >= 1:
+        issues.append(_issue(0, f0, c0, k0, r0, g0))
+    if n >= 2:
+        issues.append(_issue(1, f1, c1, k1, r1, g1))
+    if n >= 3:
+        issues.append(_issue(2, f2, c2, k2, r2, g2))
     before = list(issues)
     out = sort_issues(issues)
     if not M.same_objects(issues, before):          # the input list is left as it was
@@ -470,11 +509,10 @@ def sort_stable(n: int, f0: str, c0: str, k0: str, r0: int, g0: int, f1: str, c1
 
 
 # ------------------------------------------------------------------ 6. export
-def export_json_safe(t: str, i: int, kind: int, row: int, passes: int, nest: int) -> bool:
+def export_json_safe(t: str, kind: int, row: int, passes: int, nest: int) -> bool:
     """
     pre: 1 <= len(t) <= R.N(2)
-    pre: _one_tag_text(t)
-    pre: 0 <= i <= len(t)
+    pre: _word(t)
     pre: 0 <= kind <= 3 and 1 <= passes <= 2 and 0 <= nest <= 2
     post: _
     """
@@ -487,7 +525,7 @@ def export_json_safe(t: str, i: int, kind: int, row: int, passes: int, nest: int
     eh.push_error_context(ErrorContext.HED_STRING, h)
     issues = []
     for k in range(kind + 1):                       # one issue of each kind 0..kind
-        issues += ErrorHandler.format_error(*_make_args(k, tag, i, len(t)))
+        issues += ErrorHandler.format_error(*_make_args(k, tag, 0, len(t)))
     issues += ErrorHandler.format_error("HED_GROUP_EMPTY", HedGroup("()", 0, 2))
     eh.add_context_and_filter(issues)
     codes = [x["code"] for x in issues]
@@ -534,9 +572,17 @@ def _cells(name, lo, hi):
     return R.int_cells(name, lo, hi)
 
 
+# lengths 0..2: one cell each; length 3: by class of s[0], the "other" class also by class of s[1]
+_OFF_Q = (R.str_cells(2) + [{"VP_LEN": 3, "VP_C0": a} for a in range(5)]
+          + [{"VP_LEN": 3, "VP_C0": 5, "VP_C1": b} for b in range(6)])
+_SORT_Q = ([{"VP_LEN": 0}, {"VP_LEN": 1}] + [{"VP_LEN": 2, "VP_G0": g} for g in _REAL_MASKS]
+           + [{"VP_LEN": 3, "VP_KEY": 0, "VP_G0": g} for g in (0, 8)])
+_SORT_T = ([{"VP_LEN": 0}, {"VP_LEN": 1}] + [{"VP_LEN": 2, "VP_G0": g} for g in range(16)]
+           + [{"VP_LEN": 3, "VP_KEY": k, "VP_G0": g} for k in (0, 1, 2, 4) for g in (k, k + 8)])
+
 HARNESSES = [
     R.H("subtag_offsets", _T_SUB,
-        quick=R.tier(cells=R.str_cells(3, split1_from=3), env={"VP_N": 3}, timeout=150,
+        quick=R.tier(cells=_OFF_Q, env={"VP_N": 3}, timeout=400,
                      bound="every Unicode string s with len(s) <= 3, every tag of s, every 0 <= i <= j <= len(tag) "
                            "and j = None"),
         thorough=R.tier(cells=R.str_cells(4, split1_from=3, split2_from=4), env={"VP_N": 4}, timeout=900,
@@ -559,7 +605,7 @@ HARNESSES = [
                                      "hed.errors.error_messages.val_error_CURLY_BRACE_UNSUPPORTED_HERE",
                                      "hed.errors.error_messages.val_error_invalid_parent",
                                      "hed.errors.error_messages.val_error_no_valid_tag"],
-        quick=R.tier(cells=R.int_cells("VP_LEN", 1, 2), env={"VP_N": 2}, timeout=150,
+        quick=R.tier(cells=R.int_cells("VP_LEN", 1, 2), env={"VP_N": 2}, timeout=300,
                      bound="all eight has_sub_tag wrappers; string '(' + t + ')' with t any one-tag text, "
                            "1 <= len(t) <= 2; every 0 <= i <= j <= len(t) and j = None"),
         thorough=R.tier(cells=R.product_cells(R.int_cells("VP_LEN", 1, 3), R.int_cells("VP_K", 0, 7)),
@@ -573,11 +619,11 @@ HARNESSES = [
     R.H("whole_tag_offsets", [_ER + "hed_tag_error", _ER + "ErrorHandler.format_error_with_context",
                               "hed.errors.error_messages.val_error_duplicate_tag",
                               "hed.errors.error_messages.val_error_empty_group"] + _T_DECOR,
-        quick=R.tier(cells=R.str_cells(4, split1_from=4), env={"VP_N": 4}, timeout=150,
-                     bound="every Unicode string s with len(s) <= 4; every tag and every empty group of s"),
-        thorough=R.tier(cells=R.str_cells(5, split1_from=4, split2_from=5), env={"VP_N": 5}, timeout=900,
+        quick=R.tier(cells=R.str_cells(3, split1_from=3), env={"VP_N": 3}, timeout=300,
+                     bound="every Unicode string s with len(s) <= 3; every tag and every empty group of s"),
+        thorough=R.tier(cells=R.str_cells(4, split1_from=3, split2_from=4), env={"VP_N": 4}, timeout=900,
                         path_timeout=60,
-                        bound="every Unicode string s with len(s) <= 5; every tag and every empty group of s"),
+                        bound="every Unicode string s with len(s) <= 4; every tag and every empty group of s"),
         what="a whole-tag issue (HED_TAG_REPEATED on each tag, HED_GROUP_EMPTY on each '()' group) made by "
              "format_error_with_context: offsets inside s, s[char_index:char_index_end] is the tag/group text quoted "
              "in the message, message == template + one location suffix",
@@ -586,12 +632,13 @@ HARNESSES = [
     R.H("combined_offsets", ["hed.models.hed_string.HedString.from_hed_strings",
                              "hed.models.hed_string.HedString._get_org_span_from_strings",
                              _ER + "ErrorHandler.format_error_with_context"] + _T_DECOR,
-        quick=R.tier(cells=R.product_cells(R.int_cells("VP_L1", 0, 2), R.int_cells("VP_L2", 0, 2)),
-                     env={"VP_N": 2}, timeout=150,
-                     bound="row string combined from the cells 'q', s1, s2 with len(s1), len(s2) <= 2, any Unicode"),
-        thorough=R.tier(cells=R.product_cells(R.int_cells("VP_L1", 0, 3), R.int_cells("VP_L2", 0, 3)),
-                        env={"VP_N": 3}, timeout=900, path_timeout=60,
-                        bound="row string combined from the cells 'q', s1, s2 with len(s1), len(s2) <= 3"),
+        quick=R.tier(cells=R.product_cells(R.int_cells("VP_L1", 0, 2), R.int_cells("VP_L2", 0, 1)),
+                     env={"VP_N": 2, "VP_M": 1}, timeout=400,
+                     bound="row string combined from the cells 'q', s1, s2 with len(s1) <= 2, len(s2) <= 1, any "
+                           "Unicode"),
+        thorough=R.tier(cells=R.product_cells(R.int_cells("VP_L1", 0, 3), R.int_cells("VP_L2", 0, 2)),
+                        env={"VP_N": 3, "VP_M": 2}, timeout=1500, path_timeout=60,
+                        bound="row string combined from the cells 'q', s1, s2 with len(s1) <= 3, len(s2) <= 2"),
         what="HedString.from_hed_strings of three cells (as the table validator does): the combined text is the "
              "cells joined by ','; an issue naming any tag of any cell gets the tag's span shifted by the lengths "
              "of the preceding cells + commas, and those offsets select that tag's text in the combined text",
@@ -601,9 +648,8 @@ HARNESSES = [
                           _ER + "ErrorHandler.format_error_from_context",
                           _ER + "ErrorHandler.filter_issues_by_severity", _ER + "hed_error",
                           _ER + "hed_tag_error"] + _T_DECOR,
-        quick=R.tier(cells=R.product_cells(R.int_cells("VP_KIND", 0, 3), R.int_cells("VP_ROUTE", 0, 2)),
-                     env={"VP_N": 2}, timeout=150,
-                     bound="string 'y, ' + t, t one-tag text with 1 <= len(t) <= 2; issue kind in {fragment, whole "
+        quick=R.tier(cells=R.int_cells("VP_KIND", 0, 3), env={"VP_N": 2}, timeout=300,
+                     bound="string 'y, ' + t, t letters/digits with 1 <= len(t) <= 2; issue kind in {fragment, whole "
                            "tag, tag-less, foreign tag}; severity override in {1,10}; warnings on/off; 1 or 2 "
                            "decoration passes; three decoration routes; any row number"),
         thorough=R.tier(cells=R.product_cells(R.int_cells("VP_KIND", 0, 3), R.int_cells("VP_ROUTE", 0, 2)),
@@ -613,21 +659,21 @@ HARNESSES = [
              "format_error_from_context: warnings dropped iff errors-only, context keys set, offsets present iff the "
              "issue names a tag of the held string and then unchanged by a second pass, the location suffix occurs "
              "exactly once (never for unlocated issues)",
-        oracle="models/issues_ref.py (count_mark, suffix, offsets_ok)", stubs=[_STUB_PARSE, _STUB_NS],
+        oracle="models/issues_ref.py (expected_message, suffix, offsets_ok)", stubs=[_STUB_PARSE, _STUB_NS],
         outside="known finding C12-suffix-repeated (located issue, 2 passes) is excluded while listed"),
     R.H("validate_decorates_once", ["hed.validator.hed_validator.HedValidator.validate",
                                     _ER + "check_for_any_errors",
                                     _ER + "ErrorHandler.filter_issues_by_severity"] + _T_DECOR,
-        quick=R.tier(cells=R.int_cells("VP_B0", 0, 4), env={"VP_N": 1}, timeout=150,
+        quick=R.tier(cells=R.int_cells("VP_B0", 0, 4), env={"VP_N": 1}, timeout=300,
                      bound="real HedValidator.validate over every combination of 2 basic-stage and 1 full-stage "
                            "issue slots (none / located warning / located error / tag-less warning / tag-less "
-                           "error), warnings on/off, handler with/without the string; t one character"),
+                           "error), warnings on/off, handler with/without the string; t one letter/digit"),
         thorough=R.tier(cells=R.int_cells("VP_B0", 0, 4), env={"VP_N": 2}, timeout=600,
                         bound="as quick with 1 <= len(t) <= 2"),
         what="issues returned by HedValidator.validate are well-formed, located iff they name a tag and the handler "
              "holds the string, carry the suffix exactly once, and errors-only == error-severity part (same order, "
              "same codes and offsets) of the warnings-on result",
-        oracle="models/issues_ref.py (count_mark, error_subset, offsets_ok)",
+        oracle="models/issues_ref.py (expected_message, error_subset, offsets_ok)",
         stubs=["run_basic_checks / run_full_string_checks are overridden to return issue lists built by the real "
                "format_error on real tags; validate itself is the /repo method", _STUB_PARSE, _STUB_NS],
         outside="which issues the real check stages produce (C01); known finding C12-suffix-repeated excluded "
@@ -641,12 +687,14 @@ HARNESSES = [
              "warnings-on list; warnings-on keeps everything",
         oracle="models/issues_ref.py (error_subset, same_objects)", outside="longer lists"),
     R.H("sort_stable", [_ER + "sort_issues"],
-        quick=R.tier(cells=R.int_cells("VP_LEN", 0, 3), env={"VP_N": 3, "VP_M": 1}, timeout=150,
-                     bound="<= 3 issues; file, sidecar column, key: optional strings of length <= 1; row: optional "
-                           "int >= 0"),
-        thorough=R.tier(cells=R.int_cells("VP_LEN", 0, 4), env={"VP_N": 4, "VP_M": 2}, timeout=900,
-                        path_timeout=60,
-                        bound="<= 4 issues; names optional strings of length <= 2; row optional int >= 0"),
+        quick=R.tier(cells=_SORT_Q, env={"VP_N": 3, "VP_M": 1}, timeout=300,
+                     bound="names = strings of length <= 1, rows = ints >= 0; <= 2 issues, each with one of the five "
+                           "presence patterns the validators produce (none / file / file+column / file+column+key "
+                           "/ file+row); 3 issues without names, each with or without a row"),
+        thorough=R.tier(cells=_SORT_T, env={"VP_N": 3, "VP_M": 1, "VP_MASKS": 1}, timeout=1200, path_timeout=60,
+                        bound="names = strings of length <= 1, rows = ints >= 0; <= 2 issues with any of the 16 "
+                              "presence patterns of (file, column, key, row) each; 3 issues all carrying the same "
+                              "one of nothing / file / column / key (each choice), each with or without a row"),
         what="sort_issues returns a permutation of the same objects, non-decreasing in (file, column, key, row) with "
              "missing name = '' and missing row = -1, equal keys keep input order; input list untouched; "
              "reverse=True is non-increasing",
@@ -656,7 +704,7 @@ HARNESSES = [
         quick=R.tier(env={"VP_N": 2}, timeout=150,
                      bound="issue lists of 2..5 issues of every kind decorated with file, row and string context, "
                            "optional nested list/dict values holding tag/string references, 1 or 2 replacement "
-                           "passes, list or dict top level; t one-tag text, len <= 2"),
+                           "passes, list or dict top level; t letters/digits, len <= 2"),
         thorough=R.tier(env={"VP_N": 3}, timeout=600, bound="as quick with len(t) <= 3"),
         what="after replace_tag_references every value is a JSON value (checked structurally), codes and "
              "severities unchanged, the string context and source_tag became text (source_tag == the tag's text)",
